@@ -108,8 +108,9 @@ def gen_toy_verify(toy):
         cases = []
         nm = 3 if tier == "quick" else 6
         for k in range(1, c.n):
-            for mi in range(nm):
-                cases.append({"toy": list(toy), "k": k, "mi": mi})
+            # all messages on ONE point object in ONE process: a (key, signature) pair accepted under one message
+            # is presented again under the others, which exposes verification state kept across calls
+            cases.append({"toy": list(toy), "k": k, "mis": list(range(nm))})
         return cases
 
     return g
@@ -128,24 +129,25 @@ def run_toy_verify(case):
     P = c.mulg(case["k"])  # both parities occur over k
     point = pecc.S256Point(P[0], P[1])
     pk = ec.b32(P[0])
-    msg = toy_msgs(8)[case["mi"]]
-    for rx in list(range(0, p + 2)) + [2**256 - 1]:
-        for s in list(range(0, n + 2)) + [2**256 - 1]:
-            if only and only != [rx, s]:
-                continue
-            sig = ec.b32(rx) + ec.b32(s)
-            exp = c.schnorr_verify(pk, msg, sig)
-            got = lib_verify(pecc, point, msg, sig)
-            if got != exp:
-                if got:
-                    cls = "accepts-s>=n" if s >= n else ("accepts-bad-R" if c.lift_x(rx) is None else "accepts-invalid")
+    for mi in case["mis"]:
+        msg = toy_msgs(8)[mi]
+        for rx in list(range(0, p + 2)) + [2**256 - 1]:
+            for s in list(range(0, n + 2)) + [2**256 - 1]:
+                if only and only != [mi, rx, s]:
+                    continue
+                sig = ec.b32(rx) + ec.b32(s)
+                exp = c.schnorr_verify(pk, msg, sig)
+                got = lib_verify(pecc, point, msg, sig)
+                if got != exp:
+                    if got:
+                        cls = "accepts-s>=n" if s >= n else ("accepts-bad-R" if c.lift_x(rx) is None else "accepts-invalid")
+                    else:
+                        cls = "rejects-valid"
+                    res.violation(f"C02/toy-verify/{cls}", vc([mi, rx, s]), got, exp, "verify_schnorr disagrees with BIP340 (all messages are verified on one point object in one process)")
                 else:
-                    cls = "rejects-valid"
-                res.violation(f"C02/toy-verify/{cls}", vc([rx, s]), got, exp, "verify_schnorr disagrees with BIP340")
-            else:
-                res.evaluations += 1
-                res.outcomes["accept==ref" if exp else "reject==ref"] += 1
-                res.nontrivial_bulk += 1
+                    res.evaluations += 1
+                    res.outcomes["accept==ref" if exp else "reject==ref"] += 1
+                    res.nontrivial_bulk += 1
     return res
 
 
@@ -173,7 +175,9 @@ def gen_real_sign(tier, seed):
     if tier == "thorough":
         msgs += [filler(seed, "c02msg", i) for i in range(1, 4)]
         secrets += [filler_int(seed, "c02s2", i, 1, N - 1) for i in range(6)]
-    return [{"d": str(d), "msg": m.hex(), "aux": a.hex() if a is not None else None} for d in secrets for m in msgs for a in auxs]
+    # one case per secret: ONE PrivateKey object signs every (message, aux) pair, same message consecutively with
+    # different aux values, so state kept on the key object between calls is exposed
+    return [{"d": str(d), "pairs": [[m.hex(), a.hex() if a is not None else None] for m in msgs for a in auxs]} for d in secrets]
 
 
 def run_real_sign(case):
@@ -182,29 +186,32 @@ def run_real_sign(case):
     res = Res()
     c = ec.SECP
     d = int(case["d"])
-    msg = bytes.fromhex(case["msg"])
-    aux = bytes.fromhex(case["aux"]) if case["aux"] is not None else None
-    vc = {"engine": "real-sign", "case": case}
-    exp = c.schnorr_sign(d, msg, aux if aux is not None else b"\x00" * 32)
     priv = pecc.PrivateKey(d)
-    sig = attempt(lambda: priv.sign_schnorr(msg, aux).serialize())
-    if sig != exp:
-        res.violation("C02/real-sign/differs", vc, sig, exp, "sign_schnorr is not the BIP340 signature")
-        return res
     P = c.mulg(d)
-    k = c.schnorr_nonce(d, msg, aux if aux is not None else b"\x00" * 32)
-    R = c.mulg(k)
-    res.ok(f"sign==ref(Podd={P[1]&1},Rodd={R[1]&1})", nontrivial=(case["d"], case["msg"], case["aux"]), sample=case)
-    if not lib_verify(pecc, priv.point, msg, sig):
-        res.violation("C02/real-sign/own-rejected", vc, False, True, "verify_schnorr rejects own signature")
-    else:
-        res.ok("verifies")
-    # through the x-only parsed key as well
     pt = attempt(pecc.S256Point.parse, ec.b32(P[0]))
-    if isinstance(pt, Rejected) or not lib_verify(pecc, pt, msg, sig):
-        res.violation("C02/real-sign/xonly-key-rejected", vc, False, True, "verification under the parsed x-only key fails")
-    else:
-        res.ok("verifies under parsed x-only key")
+    for mh, ah in case["pairs"]:
+        msg = bytes.fromhex(mh)
+        aux = bytes.fromhex(ah) if ah is not None else None
+        vc = {"engine": "real-sign", "case": dict(case, pairs=[p for p in case["pairs"] if p[0] == mh][: [p for p in case["pairs"] if p[0] == mh].index([mh, ah]) + 1])}
+        exp = c.schnorr_sign(d, msg, aux if aux is not None else b"\x00" * 32)
+        sig = attempt(lambda: priv.sign_schnorr(msg, aux).serialize())
+        if sig != exp:
+            fresh = attempt(lambda: pecc.PrivateKey(d).sign_schnorr(msg, aux).serialize())
+            cls = "differs-on-reused-key-object" if fresh == exp else "differs"
+            res.violation(f"C02/real-sign/{cls}", vc, sig, exp, "sign_schnorr is not the BIP340 signature" + (" (a fresh key object gives the right one: state kept between calls)" if fresh == exp else ""))
+            continue
+        k = c.schnorr_nonce(d, msg, aux if aux is not None else b"\x00" * 32)
+        R = c.mulg(k)
+        res.ok(f"sign==ref(Podd={P[1]&1},Rodd={R[1]&1})", nontrivial=(case["d"], mh, ah), sample={"d": case["d"], "msg": mh, "aux": ah})
+        if not lib_verify(pecc, priv.point, msg, sig):
+            res.violation("C02/real-sign/own-rejected", vc, False, True, "verify_schnorr rejects own signature")
+        else:
+            res.ok("verifies")
+        # through the x-only parsed key as well
+        if isinstance(pt, Rejected) or not lib_verify(pecc, pt, msg, sig):
+            res.violation("C02/real-sign/xonly-key-rejected", vc, False, True, "verification under the parsed x-only key fails")
+        else:
+            res.ok("verifies under parsed x-only key")
     return res
 
 
@@ -250,8 +257,11 @@ def gen_real_verify(tier, seed):
     for d in secrets:
         msg = filler(seed, "c02vmsg", d % 97)
         sig = c.schnorr_sign(d, msg, b"\x00" * 32)
-        for nm in verify_catalogue(c, d, msg, sig, tier):
-            cases.append({"d": str(d), "msg": msg.hex(), "dev": nm, "tier": tier})
+        names = [nm for nm in verify_catalogue(c, d, msg, sig, tier) if nm != "valid"]
+        G = 6
+        for i in range(0, len(names), G):
+            # the valid triple is verified first in every case, then the deviations, on the same objects
+            cases.append({"d": str(d), "msg": msg.hex(), "devs": ["valid"] + names[i : i + G], "tier": tier})
     return cases
 
 
@@ -263,21 +273,25 @@ def run_real_verify(case):
     d = int(case["d"])
     msg = bytes.fromhex(case["msg"])
     sig = c.schnorr_sign(d, msg, b"\x00" * 32)
-    pk, m, s64 = verify_catalogue(c, d, msg, sig, case["tier"])[case["dev"]]
-    exp = c.schnorr_verify(pk, m, s64)
-    vc = {"engine": "real-verify", "case": case}
+    cat = verify_catalogue(c, d, msg, sig, case["tier"])
+    P = c.mulg(d)
+    shared_point = pecc.S256Point(P[0], P[1])
+    for dev in case["devs"]:
+        pk, m, s64 = cat[dev]
+        exp = c.schnorr_verify(pk, m, s64)
+        vc = {"engine": "real-verify", "case": dict(case, devs=["valid", dev] if dev != "valid" else ["valid"])}
 
-    def f():
-        point = pecc.S256Point.parse(pk)
-        sg = pecc.SchnorrSignature.parse(s64)
-        return point.verify_schnorr(m, sg)
+        def f():
+            point = shared_point if pk == ec.b32(P[0]) else pecc.S256Point.parse(pk)
+            sg = pecc.SchnorrSignature.parse(s64)
+            return point.verify_schnorr(m, sg)
 
-    got = accepted(attempt(f))
-    if got != exp:
-        cls = case["dev"].split("-byte")[0]
-        res.violation(f"C02/real-verify/{'accepts' if got else 'rejects'}/{cls}", vc, got, exp, "verify_schnorr disagrees with BIP340 on secp256k1")
-    else:
-        res.ok(f"verify==ref({exp})", nontrivial=(case["d"], case["dev"]) if case["dev"] != "valid" else None, sample=case if case["dev"] in ("s=n", "R=p") else None)
+        got = accepted(attempt(f))
+        if got != exp:
+            cls = dev.split("-byte")[0]
+            res.violation(f"C02/real-verify/{'accepts' if got else 'rejects'}/{cls}", vc, got, exp, "verify_schnorr disagrees with BIP340 on secp256k1 (the valid triple was verified first in the same process)")
+        else:
+            res.ok(f"verify==ref({exp})", nontrivial=(case["d"], dev) if dev != "valid" else None, sample={"d": case["d"], "dev": dev} if dev in ("s=n", "R=p") else None)
     return res
 
 
